@@ -157,7 +157,16 @@ def drawn_cases(draw, tier):
         spec = {"user": draw(gens.user_filter_cfgs(k))}
     max_len = 48 if tier == "quick" else 300
     msgs = draw(st.lists(gens.messages(max_len, min_len=1), min_size=1, max_size=3 if tier == "quick" else 8))
-    if k <= 5 and draw(st.sampled_from([True, False, False])):
+    if draw(st.sampled_from([False] * 11 + [True])):
+        # graphs rich in single-arc vertices (run limit 1, optionally balanced GC, threshold 1) with a message of a few
+        # hundred bits: the walk keeps passing through forced steps, also right after its last informative one
+        k, t = draw(st.sampled_from([3, 4, 4, 5])), 1
+        spec = {"local": {"k": k, "run": 1, "gc": draw(st.sampled_from([None, ["0.5", "0.5"], ["0.25", "0.75"]])),
+                          "motifs": None}}
+        if spec["local"]["gc"] == ["0.5", "0.5"] and k % 2:
+            spec["local"]["gc"] = ["0.4", "0.6"]
+        msgs = msgs[:2] + [draw(gens.messages(420 if tier == "quick" else 1000, min_len=130))]
+    elif k <= 5 and draw(st.sampled_from([True, False, False])):
         # one message of a few hundred bits (encoded from six start vertices only): lengths at which an
         # implementation may switch to another strategy
         msgs = msgs[:2] + [draw(gens.messages(420 if tier == "quick" else 1000, min_len=100))]
@@ -227,7 +236,7 @@ SUBCHECKS = [
              exhaustive_space="every graph generation returns for the 65,536 order-2 masks x thresholds 1..4, every "
                               "retained start vertex, 1 (quick) / 6 (thorough) deterministic messages each",
              rule=RULE, timeout=120.0),
-    SubCheck("drawn_generated", evaluate_drawn, strategy=drawn_cases, examples=(2000, 12000), shards=(16, 16),
+    SubCheck("drawn_generated", evaluate_drawn, strategy=drawn_cases, examples=(1400, 12000), shards=(16, 16),
              floors={"graph_with_deg1": 30, "trimmed": 60, "deg1_traversed": 30, "fast": 40, "src:local": 40,
                      "src:user": 40, "message>=100_bits": 200, "message>=128_bits_on_graph_with_deg1": 10}, rule=RULE,
              timeout=120.0),
